@@ -98,8 +98,11 @@ class MulticastOutgoingQueue:
         # A withdrawn record may also ride along as an additional of
         # an answer that stays in the queue
         for pending in self.queue:
-            for additionals in pending.answers.values():
-                additionals.difference_update(answers)
+            for record, additionals in pending.answers.items():
+                if not additionals.isdisjoint(answers):
+                    # The set may be shared with the ServiceInfo that
+                    # produced it: replace it, do not change it in place
+                    pending.answers[record] = additionals.difference(answers)
 
     def async_ready(self) -> None:
         """Process anything in the queue that is ready."""
